@@ -22,6 +22,8 @@ origin={
  'F4':'added after seed C04-r3a','S6':'added after seed C07-r3b','S2':'planned; the read-inside-the-loop clause was added after seed C07-r3a','O9':'added after seed C09-r3a','O10':'added after seed C09-r3b',
  'T6':'added after seed C10-r3b','Q5':'added after seed C15-r3b','R4':'added after seed C20-r3a','R5':'added after seed C20-r3b',
  'W8':'added after seed C08-r4b','F5':'added after seed C05-r4a (also detects C04-r2a, the same idea)','M3':'added after seed C06-r4a','L7':'added after seed C16-r4b','H7':'added after seed C11-r4a','R6':'added after seed C20-r4b',
+ 'F6':'added after seed C04-r4a','F7':'added after seed C04-r4b','A6':'added after seed C08-r4a','A7':'added after seed C01-r4a','A8':'added after seed C12-r4b (general rule; found the time.now defect)','E8':'added after seed C11-r4b','W9':'added after seed C03-r4b','B7':'added after seed C19-r4b','I9':'added after seed C19-r4a (found the duration // duration defect)','O11':'added after seed C01-r4b','O12':'added after seed C09-r4a','N9':'added after seed C02-r4a','N10':'added after seed C02-r4b','I2':'planned (section 3, C10); built after seed C02-r5a','J5':'added after seeds C18-r2a/C18-r5a (found the DEL quoting defect)','V11':'added after seed C01-r5a','V12':'added after seed C01-r5b','O13':'added after seed C02-r5b','F8':'added after seed C04-r5a','A9':'added after seed C08-r5b','O14':'added after seed C09-r5b','E9':'added after seed C11-r5a','H8':'added after seed C12-r5a',
+ 'D1':'planned; comparator clause added after seed C03-r5b','D4':'planned; package initialisers, sync.Pool and maphash added after seeds C17-r4a/C11-r5b','I6':'planned as a sign/width abstract interpretation; built late as a taint rule with enumerated safe idioms (4.4); strconv sources and sign-changing conversions added after seed C10-r5a',
  'H3':'planned; key-provenance clause added after seed C12-r3a','B2':'planned; made transitive after seed C19-r3b','P1':'planned; the double-release clause was added after seed C06-r3a',
 }
 out=subprocess.check_output([V+'/bin/verifsa','rules'],text=True)
